@@ -1,9 +1,9 @@
-\* thorough: F=6, inputs of 0..260 keys
+\* thorough: F=6, inputs of 0..260 keys (Reentrant is checked for F = 2, 3, 4 and the gap models only: its cost grows with N^2)
 SPECIFICATION Spec
 CONSTANTS F = 6
   Variant = "asCoded"
   Steps = {2}
   MaxN = 260
-INVARIANTS Valid Faithful FaithfulAnyReader Enumerates EarlyExit Reentrant ReadersAgree EmptyNoTree RejectsExactly MachineIsFunction TailShape NothingLost TailValid Bounded CapIsDead RootDepthPositive
+INVARIANTS Valid Faithful FaithfulAnyReader Enumerates EarlyExit ReadersAgree EmptyNoTree RejectsExactly MachineIsFunction TailShape NothingLost TailValid Bounded CapIsDead RootDepthPositive
 PROPERTIES Terminates
 CHECK_DEADLOCK FALSE
